@@ -2,7 +2,9 @@ package pa
 
 import (
 	"fmt"
+	"go/constant"
 	"go/token"
+	"strconv"
 	"go/types"
 	"sort"
 	"strings"
@@ -44,6 +46,35 @@ type Analysis struct {
 	depth  int
 	loopHd map[*ssa.BasicBlock]bool
 	res    func(ssa.Value) ssa.Value // nil at top level
+	// ConstBind specialises string parameters to constants (e.g. elementName := "img").
+	ConstBind map[*ssa.Parameter]string
+}
+
+func (A *Analysis) constStr(v ssa.Value) (string, bool) {
+	if c, ok := v.(*ssa.Const); ok && c.Value != nil && c.Value.Kind() == constant.String {
+		return constant.StringVal(c.Value), true
+	}
+	if A.res != nil {
+		v = A.res(v)
+	}
+	if p, ok := v.(*ssa.Parameter); ok {
+		if k, ok := A.ConstBind[p]; ok {
+			return k, true
+		}
+	}
+	if c, ok := v.(*ssa.Const); ok && c.Value != nil && c.Value.Kind() == constant.String {
+		return constant.StringVal(c.Value), true
+	}
+	return "", false
+}
+
+// BindConst specialises a string parameter to a constant value.
+func (A *Analysis) BindConst(p *ssa.Parameter, val string) {
+	if A.ConstBind == nil {
+		A.ConstBind = map[*ssa.Parameter]string{}
+	}
+	A.ConstBind[p] = val
+	A.Sym.Bind[p] = strconv.Quote(val)
 }
 
 func NewAnalysis(fn *ssa.Function, isPure, inline func(*ssa.Function) bool) *Analysis {
@@ -223,6 +254,15 @@ func (A *Analysis) binop(x *ssa.BinOp, pc pathCtx) *F {
 	_, aConst := a.(*ssa.Const)
 	_, bConst := b.(*ssa.Const)
 	eq := func() *F {
+		// parameter bound to a constant string (per-element specialisation)
+		if ka, oka := A.constStr(a); oka {
+			if kb, okb := A.constStr(b); okb {
+				if ka == kb {
+					return True
+				}
+				return False
+			}
+		}
 		// bool == const
 		if bt, ok := a.Type().Underlying().(*types.Basic); ok && bt.Kind() == types.Bool {
 			fa, fb := A.cond(a, pc), A.cond(b, pc)
@@ -413,6 +453,7 @@ func (A *Analysis) inlineCall(call *ssa.Call, fn *ssa.Function) *F {
 	}
 	sub := NewAnalysis(fn, A.IsPure, A.Inline)
 	sub.depth = A.depth + 1
+	sub.ConstBind = A.ConstBind
 	sub.Atoms, sub.index = A.Atoms, A.index
 	parentRes := A.res
 	bind := map[ssa.Value]ssa.Value{}
